@@ -15,7 +15,8 @@ from . import farmers as F
 from .crop import (CropMachine, xyz_site, check_dataset, check_dataframe,
                    check_sample_rows)
 
-STAGES = ("none", "incomplete", "unreadable", "wrong-desc", "merge-conflict", "save-error")
+STAGES = ("none", "incomplete", "unreadable", "wrong-desc", "merge-conflict", "save-error",
+          "read-error")
 ROLES = (None, "runner", "harvester", "sampler")
 
 
@@ -135,7 +136,16 @@ def run_c12(ctx):
         ctx.t("corrupt_result", b, cut)
     # ------------------------------------------------------------- the reap
     before = G.snapshot_tree(m.location)
-    data_before = G.snapshot_tree(os.path.dirname(fspec.file_name())) if fspec and fspec.data_name else None
+    def data_file_bytes():
+        if not (fspec and fspec.data_name):
+            return None
+        fn_ = fspec.file_name()
+        if not G.rexists(fn_):
+            return None
+        with interpose.real.open(fn_, "rb") as fh:
+            return fh.read()
+
+    data_before = data_file_bytes()
     opts = {"clean_up": clean_up, "allow_incomplete": allow_incomplete, "wait": wait}
     # allow_incomplete needs one finished result to infer the placeholder from
     # (documented); without one the reap is refused, whatever `wait` says
@@ -143,7 +153,7 @@ def run_c12(ctx):
     expect_fail = (
         (stage == "incomplete" and not allow_incomplete and not wait)
         or refused_no_placeholder
-        or stage in ("unreadable", "wrong-desc", "merge-conflict", "save-error")
+        or stage in ("unreadable", "wrong-desc", "merge-conflict", "save-error", "read-error")
     )
     # event-log ordering monitor
     order = {"first_crop_unlink": None, "data_published": None}
@@ -177,6 +187,28 @@ def run_c12(ctx):
         w.fault_hook = hook
 
     held = {}
+
+    if stage == "read-error":
+        # a transient I/O error (EIO) on the reaper's first access to the content of a
+        # result file: the reap fails, nothing may be lost, the plain retry delivers
+        import errno as _errno
+
+        armed_r = {"on": True, "skip": t.choose(3, "read-error-skip")}
+        at_kind = t.pick(["open-r", "read"], "read-error-at")
+        resdir_ = os.path.join(m.location, "results")
+
+        def hook_r(world, actor, kind_, path, detail):
+            if armed_r["on"] and actor.name.startswith("reaper") and kind_ == at_kind \
+                    and isinstance(path, str) and os.path.dirname(path) == resdir_:
+                if armed_r["skip"] > 0:
+                    armed_r["skip"] -= 1
+                    return None
+                armed_r["on"] = False
+                world.fired["read-error@" + kind_] += 1
+                return OSError(_errno.EIO, os.strerror(_errno.EIO), path)
+            return None
+
+        w.fault_hook = hook_r
 
     def do_reap(crop_factory, **o):
         def f():
@@ -219,6 +251,9 @@ def run_c12(ctx):
         if exc is None:
             reap_crop, res = val
     w.fault_hook = None
+    if stage == "read-error" and armed_r["on"]:
+        expect_fail = False  # fewer accesses than skipped: no error was injected
+        ctx.stats["read-error-not-reached"] += 1
     after = G.snapshot_tree(m.location)
     if exc is not None:
         ctx.t("reap raised", type(exc).__name__)
@@ -233,6 +268,13 @@ def run_c12(ctx):
                             "reap raised {} but the crop directory changed: removed {} "
                             "modified {} created {}".format(
                                 type(exc).__name__, removed[:6], modified[:6], created[:6]),
+                            site=xyz_site(exc))
+        # ... and the accumulated data file is what it was (an atomic save either
+        # happened or did not; a reap that raised did not deliver)
+        if data_file_bytes() != data_before:
+            raise Violation("failed-reap-changed-data-file:" + stage,
+                            "reap raised {} but {} changed on disk".format(
+                                type(exc).__name__, os.path.basename(fspec.file_name())),
                             site=xyz_site(exc))
         # ---------------------------------------------------- corrected retry
         retry_opts = {}
